@@ -132,6 +132,17 @@ func TestIssuer(t *testing.T) {
 				registered[o] = true
 			}
 		}
+		// now and then an issuer with MANY origins (a table with a capacity would start to forget or confuse entries)
+		bulk := 0
+		if gen.Uniform(t, 8, "manyOrigins") == 0 {
+			bulk = gen.Pick(t, []int{70, 130, 260, 520}, "bulk")
+			for i := 0; i < bulk; i++ {
+				o := fmt.Sprintf("bulk-%d.example", i)
+				_ = iss.AddOrigin(o)
+				registered[o] = true
+			}
+			s.Class("issuer-with-many-origins")
+		}
 		emptyRegistered := sess.Origin == "" || rapid.Bool().Draw(t, "registerEmpty")
 		if emptyRegistered {
 			_ = iss.AddOrigin("")
@@ -144,6 +155,24 @@ func TestIssuer(t *testing.T) {
 			return
 		}
 		s.Class("honest-served")
+		if bulk > 0 {
+			// the first, a middle and the last of the many origins are served; one beyond the last is not
+			for _, i := range []int{0, bulk / 2, bulk - 1, bulk} {
+				o := fmt.Sprintf("bulk-%d.example", i)
+				st, err := type3.NewRateLimitedClientFromSecret(sess.ClientSecret).CreateTokenRequest(sess.Challenge, sess.Nonces[0], sess.BlindKey, sess.KeyID, iss.TokenKey(), o, iss.NameKey())
+				if err != nil {
+					t.Fatalf("harness: %v", err)
+				}
+				if i == bulk {
+					if !registered[o] {
+						mustReject(t, s, iss, st.Request().Marshal(), "unregistered-origin-beyond-many")
+					}
+				} else if _, _, err, _ := evaluate(iss, st.Request().Marshal()); err != nil {
+					rt.Fail(t, "C07/honest-rejected", "issuer with %d origins refuses an honest request for registered origin %q: %v", bulk, o, err)
+					return
+				}
+			}
+		}
 		ctLen := int(honest[83])<<8 | int(honest[84])
 		regions := [][2]int{{0, 2}, {2, 51}, {51, 83}, {83, 85}, {85, 85 + 32}, {85 + 32, 85 + ctLen}, {85 + ctLen, len(honest)}}
 		names := []string{"type", "requestkey", "namekeyid", "ctlen", "enc", "ct", "signature"}
